@@ -94,6 +94,11 @@ type Sched struct {
 	progress   int
 	steps      int
 	MaxSteps   int
+	// PCT > 0 selects the priority policy of that depth (see SetShape)
+	PCT        int
+	pctPrio    map[int]int
+	pctChange  map[int]bool
+	pctLow     int
 	SwitchNum  int // probability SwitchNum/SwitchDen of considering a context switch when the previous task can continue
 	SwitchDen  int
 	prev       int
@@ -124,6 +129,9 @@ var (
 	current atomic.Int32
 	wakeFds [maxTasks]atomic.Int32
 	reqFd   atomic.Int32
+	// rootOf[i] is the task started with Go from which task i descends (itself for such a task); stored
+	// by the scheduler when the task is created, before the task first runs.
+	rootOf [maxTasks]atomic.Int32
 	// abortedFlag[i] is touched only by task i's own goroutine.
 	abortedFlag [maxTasks]bool
 )
@@ -169,6 +177,11 @@ func (s *Sched) newTask(name string, group, parent int) *task {
 		panic(err)
 	}
 	t := &task{id: len(s.tasks), name: name, group: group, parent: parent, wakeR: p[0], wakeW: p[1], state: kindStart, parked: true}
+	if parent >= 0 {
+		rootOf[t.id].Store(rootOf[parent].Load())
+	} else {
+		rootOf[t.id].Store(int32(t.id))
+	}
 	s.tasks = append(s.tasks, t)
 	wakeFds[t.id].Store(int32(p[0]))
 	return t
@@ -204,6 +217,9 @@ func (s *Sched) Go(name string, group int, fn func()) int {
 	}()
 	return id
 }
+
+// NextTaskID is the id the next task created with Go will get. Scheduler goroutine only.
+func (s *Sched) NextTaskID() int { return len(s.tasks) }
 
 // At registers fn to run on the scheduler goroutine right before scheduling
 // step number `step` (0-based).
@@ -307,7 +323,51 @@ func (s *Sched) Run() {
 	}
 }
 
+// SetShape sets the scheduling policy from one drawn number: 0-3 are random policies that stay with
+// the running task with probability 1 - 1/den (den 1, 2, 4, 16); 4 and 5 are priority policies
+// (PCT, Burckhardt et al. 2010) of depth 2 and 3: every task gets a random priority when it first
+// becomes runnable, the runnable task of highest priority always runs, and at depth-1 steps drawn in
+// advance the running task drops below all others. A bug that needs d ordering constraints among n
+// tasks in k steps is hit by one such run with probability at least 1/(n k^(d-1)), whatever k is,
+// whereas uniformly random switching needs every one of its coin flips to fall right.
+func (s *Sched) SetShape(k int) {
+	s.SwitchNum = 1
+	s.SwitchDen = []int{1, 2, 4, 16, 1, 1}[k%6]
+	if k%6 >= 4 {
+		s.PCT = k%6 - 2
+	}
+}
+
+func (s *Sched) pickPCT(ready []*task) *task {
+	if s.pctPrio == nil {
+		s.pctPrio = map[int]int{}
+		s.pctChange = map[int]bool{}
+		horizon := []int{30, 120, 500}[s.src.Intn(3)]
+		for i := 1; i < s.PCT; i++ {
+			s.pctChange[s.src.Intn(horizon)] = true
+		}
+		s.pctLow = -1
+	}
+	var best *task
+	for _, t := range ready {
+		if _, ok := s.pctPrio[t.id]; !ok {
+			s.pctPrio[t.id] = 1 + s.src.Intn(1<<20)
+		}
+		if best == nil || s.pctPrio[t.id] > s.pctPrio[best.id] || s.pctPrio[t.id] == s.pctPrio[best.id] && t.id < best.id {
+			best = t
+		}
+	}
+	if s.pctChange[s.steps] {
+		s.pctPrio[best.id] = s.pctLow
+		s.pctLow--
+	}
+	return best
+}
+
 func (s *Sched) pick(ready []*task) *task {
+	if s.PCT > 0 {
+		return s.pickPCT(ready)
+	}
 	if len(ready) == 1 {
 		return ready[0]
 	}
@@ -476,6 +536,19 @@ func rawReadFull(fd int, b []byte) {
 		}
 		b = b[n:]
 	}
+}
+
+// CurrentRoot returns the id (as returned by Go) of the task the calling goroutine belongs to: the
+// task itself, or the task whose code spawned it through HookSpawn. -1 outside tasks.
+func CurrentRoot() int {
+	if active.Load() == nil {
+		return -1
+	}
+	id := me()
+	if id < 0 {
+		return -1
+	}
+	return int(rootOf[id].Load())
 }
 
 // me returns the id of the calling task (the one the scheduler let run).
